@@ -42,6 +42,8 @@ def run(ctx):
                       "same / of different types answers `changed` iff the comparator says different (1 -> 1.0 and 0 -> False are not changes)", floor=1)
     ctx.rule("R03.p", "registration model: Parameters._register_watcher interpreted abstractly (append / remove x instance / class x value / slot watcher x one / two parameters, with a second "
                       "registration of equal fields already in the list): append adds the watcher once at the end of the lists the dispatchers read, remove takes away exactly one equal registration", floor=1)
+    ctx.rule("R03.x", "context-manager model (shared with R04.x/R05.x): after discard_events nothing the block produced is left in the queues and nothing queued before is lost, "
+                      "also when the block replaced the queue objects (a trigger does) or raised", floor=1)
     ctx.rule("R03.m", "setter model: Parameter.__set__ interpreted abstractly on every combination (576) of route x constant/readonly x validation outcome x identity x reference mode x watchers x batching agrees with the specification of this property (see checks/setter_model.py)", floor=1)
     ctx.rule("R03.t", "trigger model: Parameters.trigger interpreted abstractly (instance/class x names incl. an Event and an unknown name x an event and a watcher queued before x the update dispatches / queues / raises, 96 cases): update runs once, with the trigger flag raised and the parked queues empty, on the current values; on exit the flag is lowered, earlier queue entries survive, no watcher is queued twice; the write-back is inside a _syncing scope", floor=1)
     ctx.rule("R03.u", "update model: Parameters._update (behind update/trigger) flushes exactly once when outermost, never inside an enclosing batch, and only after the batching flag is lowered again, so that watchers called by the flush dispatch their own assignments depth-first", floor=1)
@@ -322,5 +324,7 @@ def run(ctx):
     setter_model.report(ctx, "C03", "R03.m")
     from checks import trigger_model
     trigger_model.report(ctx, "C03", "R03.t")
+    from checks import cm_model
+    cm_model.report(ctx, "C03", "R03.x")
     from checks import update_model
     update_model.report(ctx, "C03", "R03.u")
